@@ -742,7 +742,7 @@ def _create_relabel_map(array, start_label=1):
         return None
 
     # Create an array to map old labels to new labels
-    relabel_map = np.zeros(labels.max() + 1, dtype=array.dtype)
+    relabel_map = np.zeros(int(labels.max()) + 1, dtype=array.dtype)
     relabel_map[labels] = np.arange(len(labels)) + start_label
 
     return relabel_map
